@@ -30,7 +30,7 @@ Consume ==
 
 NextTrace ==
   /\ l = Len(Evs) + 1
-  /\ PrintT(<<"VERDICT", Traces[tr].id, ToString(bad)>>)
+  /\ PrintT("VERDICT|" \o Traces[tr].id \o "|" \o ToString(bad))
   /\ IF tr < Len(Traces)
      THEN /\ tr' = tr + 1 /\ l' = 1 /\ prog' = Programs[Traces[tr + 1].prog] /\ evs' = Traces[tr + 1].evs
           /\ begun' = {} /\ ended' = {} /\ dead' = <<>> /\ ret' = NoRet /\ bad' = {}
